@@ -174,6 +174,7 @@ pub mod app {
 
     #[derive(Effect)]
     pub struct Capabilities {
+        #[allow(dead_code)]
         pub display: Render<Event>,
         pub key_value: crux_kv::KeyValue<Event>,
         #[effect(skip)]
